@@ -375,3 +375,52 @@ def gen_nested(thorough: bool) -> Iterator[tuple[str, list[list[Any]]]]:
                     t += 1
                     body.append(Ctl(("end", "return", "hold")[t % 3]))
                     yield f"nested:{outer}", [body]
+
+
+def gen_extra(thorough: bool) -> Iterator[tuple[str, list[list[Any]]]]:
+    """Shapes outside the product families: a routine that starts with (nested) loops, calls of labels before and after the call, several routines with
+    the same switch shape, shared switch branches."""
+    P = Plain
+    # routines starting with loops
+    for outer in ("forever", "while", "whilenot"):
+        for inner in ("while", "whilenot", "forever-break", "for"):
+            for tail in ("op", "none"):
+                nm = Names()
+                if inner == "while":
+                    inn: Any = While(False, nm.h(), [nm.p()])
+                elif inner == "whilenot":
+                    inn = While(True, nm.h(), [nm.p()])
+                elif inner == "for":
+                    inn = For(nm.p(), nm.h(), nm.p(), [nm.p()])
+                else:
+                    inn = Forever([nm.p(), If(False, [nm.h()], [Ctl("break_loop")])])
+                body = [inn] + ([nm.p()] if tail == "op" else [])
+                if outer == "forever":
+                    top: Any = Forever(body + [If(False, [nm.h()], [Ctl("break_loop")])])
+                elif outer == "while":
+                    top = While(False, nm.h(), body)
+                else:
+                    top = While(True, nm.h(), body)
+                yield "loop-first", [[top, nm.p(), Ctl("end")]]
+                yield "loop-first", [[top]]
+    # calls
+    yield "calls", [[Label("l"), P("x"), Call("l"), Ctl("return")]]
+    yield "calls", [[P("x"), Call("l"), Ctl("return"), Label("l"), P("y"), Ctl("return")]]
+    yield "calls", [[Label("l"), P("x"), If(False, [Hdr(1)], [Call("l")]), Ctl("end")]]
+    yield "calls", [[Label("l"), P("x"), If(False, [Hdr(1)], [Call("l"), P("y")], [], [P("z")]), Ctl("end")]]
+    yield "calls", [[P("w"), Label("l"), P("x"), Forever([Call("l"), If(False, [Hdr(1)], [Ctl("break_loop")])]), Ctl("end")]]
+    yield "calls", [[Call("s"), P("a"), Call("s"), Ctl("end"), Label("s"), P("sub"), Ctl("return")]]
+    yield "calls", [[Label("s"), P("sub"), If(False, [Hdr(1)], [Ctl("return")]), Call("s"), P("after"), Ctl("return")]]
+    # the same switch shape in several routines; shared branches
+    def shared(k: int, names: tuple[str, str]) -> list[Any]:
+        return [Switch(k, [Case([1], [Jump(f"x{k}")]), Case([2], [P(names[1]), Ctl("break")]), Case([3], [Label(f"x{k}"), P(names[0]), Ctl("break")])]), Ctl("end")]
+    yield "same-shape-routines", [shared(1, ("a", "b")), shared(2, ("c", "d")), shared(3, ("e", "f"))]
+    yield "same-shape-routines", [shared(1, ("a", "b")), [P("m"), Ctl("end")], shared(2, ("c", "d"))]
+
+    def ifs(k: int, names: tuple[str, str, str]) -> list[Any]:
+        return [If(False, [Hdr(k)], [P(names[0])], [], [P(names[1])]), P(names[2]), Ctl("end")]
+    yield "same-shape-routines", [ifs(1, ("a", "b", "c")), ifs(2, ("d", "e", "f"))]
+
+    def loops(k: int, names: tuple[str, str]) -> list[Any]:
+        return [Forever([P(names[0]), If(False, [Hdr(k)], [Ctl("break_loop")])]), P(names[1]), Ctl("end")]
+    yield "same-shape-routines", [loops(1, ("a", "b")), loops(2, ("c", "d"))]
